@@ -21,7 +21,8 @@ from .shapes import Shape
 
 def _scenarios(hist: List[Dict[str, Any]]) -> List[str]:
     has_edit = any(r["op"] == "edit" for r in hist)
-    return ["rekeep_vs_load", "rekeep_vs_rekeep"] if has_edit else ["same_keep_cold", "same_keep_two_views"]
+    return (["rekeep_vs_load", "rekeep_vs_rekeep", "rekeep_rekeep_load"] if has_edit
+            else ["same_keep_cold", "same_keep_two_views", "three_keepers_cold"])
 
 
 def _sched_task(a) -> Dict[str, Any]:
@@ -58,6 +59,10 @@ def _sched_task(a) -> Dict[str, Any]:
             segs = {"a": keeper, "b": dict(keeper)}
         elif scen == "rekeep_vs_load":
             segs = {"a": keeper, "b": loader}
+        elif scen == "three_keepers_cold":
+            segs = {"a": keeper, "b": dict(keeper), "c": dict(keeper)}
+        elif scen == "rekeep_rekeep_load":
+            segs = {"a": keeper, "b": dict(keeper), "c": loader}
         elif scen == "same_keep_two_views":
             k2 = dict(keeper)
             k2["store"] = dict(keeper["store"])
@@ -165,9 +170,16 @@ def run_c07(tier: str) -> int:
     limit = 260 if tier == "quick" else 6000
     base = common.sub_scratch("sched")
     tasks = []
+    seen3 = set()
     for (s, h) in items:
         for scen in _scenarios(h):
-            tasks.append((len(tasks), s.to_json(), h, scen, bound, limit, base))
+            three = scen in ("three_keepers_cold", "rekeep_rekeep_load")
+            if three and tier == "quick":
+                # three processes: one history per scenario in the quick tier
+                if scen in seen3:
+                    continue
+                seen3.add(scen)
+            tasks.append((len(tasks), s.to_json(), h, scen, 1 if three else bound, (limit // 2) if three else limit, base))
     with multiprocessing.get_context("fork").Pool(common.NCPU) as pool:
         outs = pool.map(_sched_task, tasks, chunksize=1)
     runs = pre = 0
@@ -195,7 +207,7 @@ def run_c07(tier: str) -> int:
     rep.cov["preemption_bound"] = bound
     rep.cov["evaluations"] = runs
     rep.cov["distinct_nontrivial"] = pre
-    rep.cov["rule"] = ("one execution = one schedule of two shimmed processes at file-system-call granularity (each write is two "
+    rep.cov["rule"] = ("one execution = one schedule of two (scenarios three_keepers_cold, rekeep_rekeep_load: three) shimmed processes at file-system-call granularity (each write is two "
                        "calls); schedules are enumerated depth-first up to the preemption bound (budget per scenario); "
                        "non-trivial = schedules with at least one preemption (they are all distinct)")
     rep.cov["exhaustive"] = False
